@@ -409,3 +409,89 @@ class KernelMeaning(Contract):
                          z3.Or(z3.And(lo == 0, hi == shp[d]),
                                # empty axis: nothing to write
                                z3.And(shp[d] == 0, hi <= lo)), props=P)
+
+
+@contract
+class KernelOrderIndependence(Contract):
+    name = "kernel.order"
+    functions = ("pytato.target.loopy.codegen:generate_loopy",
+                 "pytato.codegen:preprocess",
+                 "pytato.target.loopy.codegen:CodeGenMapper."
+                 "map_dict_of_named_arrays")
+    properties = ("C01", "C17")
+    max_paths = 20
+
+    def instances(self, tier):
+        return [dict(label=f"{p};{o}", prog=p, order=o)
+                for p in PROGRAMS for o in ("reversed", "rotated")]
+
+    def canaries(self, tier):
+        return [(dict(label="chain;reversed", prog="chain", order="reversed"),
+                 "compare-with-another-program", "kernel.order.")]
+
+    @staticmethod
+    def observe(bp):
+        knl = bp.program.default_entrypoint
+        return ([str(i) for i in knl.instructions],
+                [(a.name, str(getattr(a, "shape", None)), str(a.dtype))
+                 for a in knl.args],
+                sorted(knl.temporary_variables),
+                [str(d) for d in knl.domains], sorted(bp.bound_arguments))
+
+    def run(self, h, inst):
+        prog = inst["prog"]
+        ident = lambda k, x: x   # noqa: E731
+        outs = PROGRAMS[prog](ident)
+        names = list(outs)
+        if inst["order"] == "reversed":
+            names2 = names[::-1]
+        else:
+            names2 = names[1:] + names[:1]
+        outs2_all = PROGRAMS[prog](ident)
+        if h.canary:
+            outs2_all = PROGRAMS["elementwise" if prog != "elementwise"
+                                 else "chain"](ident)
+            names2 = list(outs2_all)
+        outs2 = {k: outs2_all[k] for k in names2}
+        try:
+            o1 = self.observe(h.call(pt.generate_loopy, outs))
+            o2 = self.observe(h.call(pt.generate_loopy, outs2))
+        except EngineSignal:
+            raise
+        except Exception as e:  # noqa: BLE001
+            h.fail("kernel.order.code-generation-succeeds",
+                   f"{type(e).__name__}: {e}")
+            return
+        diff = None
+        if o1 != o2:
+            for part, (x, y) in enumerate(zip(o1, o2, strict=True)):
+                if x != y:
+                    diff = f"part {part}: {x!r:.200} vs {y!r:.200}"
+                    break
+        h.oblige("kernel.order.same-kernel-for-every-output-order",
+                 z3.BoolVal(o1 == o2), info=diff)
+
+    def replay(self, inst, clause, model, info):
+        return ORDER_REPLAY.format(prog=inst["prog"], order=inst["order"])
+
+
+ORDER_REPLAY = '''
+import sys
+sys.path.insert(0, "/verif"); sys.path.append("/verif/.deps")
+import pytato as pt
+from pyvc.replaylib import reproduced, not_reproduced
+from contracts.c07_kernel import PROGRAMS, KernelOrderIndependence as K
+prog, order = {prog!r}, {order!r}
+ident = lambda k, x: x
+outs = PROGRAMS[prog](ident)
+names = list(outs)
+names2 = names[::-1] if order == "reversed" else names[1:] + names[:1]
+o2all = PROGRAMS[prog](ident)
+o1 = K.observe(pt.generate_loopy(outs))
+o2 = K.observe(pt.generate_loopy({{k: o2all[k] for k in names2}}))
+if o1 != o2:
+    for x, y in zip(o1, o2):
+        if x != y:
+            reproduced(f"kernels differ for output orders {{names}} / {{names2}}:\\n  {{x!r:.300}}\\n  {{y!r:.300}}")
+not_reproduced("same kernel for both output orders")
+'''
